@@ -436,7 +436,9 @@ def job_smooth(seed):
 
 def getinterval_tu(unbounded):
     ex = ccv.extract('tools/src/libtools/spline.cc', r'Index\s+Spline::getInterval\s*\(\s*double\s+r\s*\)')
-    ccv.rule(ex, 'R-size', r'\br_\.size\(\)', 'self->r_n', 3)
+    ccv.rule(ex, 'R-size', r'\br_\.size\(\)', 'self->r_n', None)      # count not pinned: a rewritten body must still be checked, not declared drift
+    ccv.rule(ex, 'R-fcast', r'\b(double|Index|int|long)\s*\(([^()]*)\)', r'((\1)(\2))', 'any')      # functional cast of a scalar -> C cast (same meaning)
+    ccv.rule(ex, 'R-scast', r'\bstatic_cast\s*<\s*(double|Index|int|long)\s*>\s*\(', r'(\1)(', 'any')
     if ccv.count_loops(ex) != 1:
         raise core.Undecided('extraction drift: getInterval has %d loops, contract knows 1' % ccv.count_loops(ex))
     if unbounded:
@@ -477,10 +479,104 @@ def job_getinterval(mode):
                       core.BOUNDED, 0, 'cvc5 timeout/unknown', bound='not decided beyond the twin bound')]
     else:
         obs = ccv.build_and_check('C12.getInterval.twin', 'Spline::getInterval', {'gi.c': tu}, 'h_gi', enforce='Spline_getInterval',
-                                  defines=['VERIF_MAXN=8'], unwind=10, timeout=600, expect_fail=['canary'], need=['postcondition'],
+                                  defines=['VERIF_MAXN=8'], unwind=10, timeout=240, expect_fail=['canary'], need=['postcondition'],
                                   bound='grid size <= 8 (every double value symbolic)', route_note='verbatim body, quantifier-free twin')
     for o in obs:
         o['functions'] = [info]
+    return obs
+
+
+def job_getinterval_real(n, seed=0):
+    """Spline::getInterval over the reals from the AST (RVC), grids of n symbolic knots: complements the CBMC contract - it also decides bodies
+    whose IEEE encoding CBMC cannot finish (e.g. a start index computed by a division).  A double->Index conversion enters by its contract
+    (truncation), enumerated over the indices -2..n+1; an index outside the knot vector is reported as such."""
+    import z3
+    rvc.reset()
+    fns = rvc.functions(rvc.ast('tools/src/libtools/spline.cc', 'Spline::getInterval'))
+    if 'getInterval' not in fns:
+        raise core.Undecided('front end: Spline::getInterval not found')
+    fn = fns['getInterval'][0]
+    F = 'Spline::getInterval'
+    bound = '%d knots (symbolic, strictly increasing), real arithmetic' % n
+    x0 = sp.Symbol('x0', real=True)
+    gaps = [sp.Symbol('g%d' % i, positive=True) for i in range(n - 1)]
+    xs = [x0 + sum(gaps[:i]) for i in range(n)]
+    r = sp.Symbol('r', real=True)
+    P = rvc.Paths()
+    obs = []
+    zx = [rvc.to_z3(x) for x in xs]
+    zr = z3.Real('r')
+    while True:
+        P.start()
+        rvc.CTX.base = [z3.Real('g%d' % i) > 0 for i in range(n - 1)]
+        oob = []
+        class Knots(Mx):
+            pass
+        kn = Mx.vec(xs)
+        def to_int(v):
+            vv = D.lift(v).v
+            for k in range(-2, n + 2):
+                lo, hi = (sp.Le(k, vv), sp.Lt(vv, k + 1)) if k > 0 else ((sp.Lt(k - 1, vv), sp.Le(vv, k)) if k < 0 else (sp.Lt(-1, vv), sp.Lt(vv, 1)))    # truncation toward zero
+                if P.decide(sp.And(lo, hi)):
+                    return k
+            raise rvc.Unsupported('double->Index conversion outside the enumerated range')
+        class KV:
+            def index_ref(s_, idx):
+                i = rvc._i(idx[0])
+                if not isinstance(i, int):
+                    raise rvc.Unsupported('symbolic knot index')
+                if not (0 <= i < n):
+                    oob.append(i)
+                    return D(sp.Symbol('oob%d' % len(oob), real=True))
+                return D(xs[i])
+            def size(s_): return n
+        this = {'r_': KV()}
+        ex = Exec({'r': D(r)}, {'decide': P.decide, 'to_int': to_int}, {}, this)
+        ret = None
+        try:
+            ex.stmt(rvc.body_of(fn))
+        except Ret as rr:
+            ret = rr.v
+        t = 'n%d.p%d' % (n, P.count)
+        ri = rvc._i(ret) if ret is not None else None
+        small = [z3.Real('x0') == 0] + [z3.Real('g%d' % i) * 8 == z3.ToReal(z3.Int('q%d' % i)) for i in range(n - 1)] + [z3.Int('q%d' % i) <= 64 for i in range(n - 1)] + [zr * 8 == z3.ToReal(z3.Int('qr'))]
+        o1 = rvc.logic('C12.getInterval.real/%s/in-range' % t, F, 'every knot access is inside the knot vector', z3.BoolVal(not oob), pc=P.pc, bound=bound, small=small)
+        obs.append(o1)
+        if isinstance(ri, int):
+            inside = z3.And(zr >= zx[0], zr < zx[n - 1])
+            claim = z3.And(0 <= ri, ri <= n - 2,
+                           z3.Implies(inside, z3.And(zx[max(0, min(ri, n - 1))] <= zr, zr < zx[max(0, min(ri + 1, n - 1))])) if 0 <= ri <= n - 2 else z3.Not(inside),
+                           z3.Implies(zr < zx[0], ri == 0), z3.Implies(zr >= zx[n - 1], ri == n - 2))
+            o = rvc.logic('C12.getInterval.real/%s/interval' % t, F, 'result in [0, n-2]; x[result] <= r < x[result+1] for r inside the grid; clamped to the first / last interval outside', claim, pc=P.pc, bound=bound, small=small)
+            o['detail'] = (o.get('detail') or '') + ' returned %d' % ri
+            obs.append(o)
+        else:
+            obs.append(Ob('C12.getInterval.real/%s/interval' % t, F, 'returns an interval index', 'RVC', 'symbolic execution', core.REFUTED, 0, 'returned %r' % (ret,), witness={}, bound=bound))
+        if not P.next():
+            break
+    mf = [{'name': F, 'file': 'tools/src/libtools/spline.cc', 'ast_nodes': rvc.node_count(fn), 'route': 'RVC (real arithmetic, bounded grid size)'}]
+    for o in obs:
+        o['functions'] = mf
+    bad = [o for o in obs if o['status'] == core.REFUTED and o.get('witness')]
+    if bad:
+        try:
+            exe = native.build('C12.getinterval', open(os.path.join(CDIR, 'replay_getinterval.cc')).read(), ['tools/src/libtools/spline.cc', 'tools/src/libtools/linspline.cc'])
+            for o in bad:
+                w = o['witness']
+                try:
+                    vals = [float(sp.Rational(w.get('x0', '0')))]
+                    for i in range(n - 1):
+                        vals.append(vals[-1] + float(sp.Rational(w['g%d' % i])))
+                    rv = float(sp.Rational(w['r']))
+                except (KeyError, TypeError, ValueError):
+                    o['replay'] = {'reproduced': False, 'error': 'witness incomplete'}
+                    continue
+                args = [repr(rv)] + [repr(v) for v in vals]
+                rc, out, err = native.execute(exe, args)
+                o['replay'] = {'reproduced': rc == 1, 'cmd': exe + ' ' + ' '.join(args), 'rc': rc, 'stdout': out[-600:], 'stderr': err[-600:], 'against': 'real Spline::getInterval through LinSpline (spline.cc) with ASan+UBSan'}
+        except core.Undecided as e:
+            for o in bad:
+                o['replay'] = {'reproduced': False, 'error': str(e)}
     return obs
 
 
@@ -556,7 +652,7 @@ def jobs_rvc(tier, seed):
 
 
 def run(tier, seed, only=None):
-    jobs = jobs_rvc(tier, seed) + [(job_getinterval, ('unbounded',)), (job_getinterval, ('twin',)), (job_grid, ('spline', seed)), (job_grid, ('table', seed))]
+    jobs = jobs_rvc(tier, seed) + [(job_getinterval, ('unbounded',)), (job_getinterval, ('twin',))] + [(job_getinterval_real, (k, seed)) for k in ((3, 4) if tier == 'quick' else (3, 4, 5, 6))] + [(job_grid, ('spline', seed)), (job_grid, ('table', seed))]
     if only:
         jobs = [j for j in jobs if re.search(only, j[0].__name__ + str(j[1]))]
     obs = core.pmap(jobs)
